@@ -64,22 +64,29 @@ theorem jailed_excluded_after_end (s s' : State) (ups : List (Addr × Int)) (h :
   exact jailed_not_in_target s h a v hv hj
 
 /-- An unjail request succeeds exactly when the validator exists, is jailed, holds at least the
-minimum stake, has a signing info, is not tombstoned, and the block time has reached jailed-until. -/
+minimum stake, has a signing info, is not tombstoned, the block time has reached jailed-until, and
+(for a staked validator, which re-enters the power index) its power fits an int64: computing the
+power-index key panics otherwise. -/
 theorem unjail_iff (s : State) (a : Addr) :
     (handle s (.unjail a)).isSome = true ↔
       ∃ v si, aget s.vals a = some v ∧ aget s.sign a = some si ∧ v.jailed = true ∧
-        s.p.minStake ≤ v.tokens ∧ si.tomb = false ∧ si.jailedUntil ≠ forever ∧ si.jailedUntil ≤ s.time := by
+        s.p.minStake ≤ v.tokens ∧ si.tomb = false ∧ si.jailedUntil ≠ forever ∧ si.jailedUntil ≤ s.time ∧
+        (v.status = 2 → Posmint.Arith.isInt64 (power v.tokens) = true) := by
   constructor
   · intro h
     cases hh : handle s (.unjail a) with
     | none => rw [hh] at h; cases h
     | some s' =>
       obtain ⟨v, si, h1, h2, h3, h4, h5, h6, h7, _⟩ := handle_unjail_shape hh
-      exact ⟨v, si, h1, h2, h3, h4, h5, h6, h7⟩
-  · rintro ⟨v, si, h1, h2, h3, h4, h5, h6, h7⟩
+      exact ⟨v, si, h1, h2, h3, h4, h5, h6, h7, fun hst => handle_unjail_int64 hh h1 hst⟩
+  · rintro ⟨v, si, h1, h2, h3, h4, h5, h6, h7, h8⟩
     have e1 : ¬ v.tokens < s.p.minStake := by omega
     have e2 : ¬ s.time < si.jailedUntil := by omega
-    simp [handle, h1, h2, h3, h5, e1, e2, h6]
+    have e3 : (v.status == 2 && !Posmint.Arith.isInt64 (power v.tokens)) = false := by
+      by_cases hst : v.status = 2
+      · simp [hst, h8 hst]
+      · simp [hst]
+    simp [handle, h1, h2, h3, h5, e1, e2, h6, e3]
 
 set_option linter.unusedVariables false in
 /-- On success only the jailed flag (and the index) change, and a staked validator re-enters the
@@ -145,11 +152,14 @@ theorem tombstone_forever (s : State) (op : Op) (r : State × List (Addr × Int)
       simp only [step, Option.some.injEq] at hs
       subst hs
       refine ⟨si, ?_, ht, hf⟩
+      have hsgn : ∀ x : State,
+          (if mode == .deliver then { x with blockTxs := t.id :: x.blockTxs } else x).sign = x.sign := by
+        intro x; split <;> rfl
+      show aget (State.sign (if mode == Mode.deliver then _ else _)) a = some si
+      rw [hsgn]
       rcases runTx_cases s mode t with h1 | ⟨_, s0, hb, h1 | h1⟩
-      · show aget (runTx s mode t).1.sign a = some si
-        rw [h1]; exact hsi
-      · show aget (runTx s mode t).1.sign a = some si
-        rw [h1.1, hb.sign]; exact hsi
+      · rw [h1]; exact hsi
+      · rw [h1.1, hb.sign]; exact hsi
       · exact handle_sign_kept h1.2 a si (by rw [hb.sign]; exact hsi)
   refine ⟨key, ?_⟩
   obtain ⟨si', h1, h2, _⟩ := key
